@@ -9,13 +9,13 @@ from vlib import guarded_main
 import specnum, ttcheck
 
 # groups: 0 tensor, 1 st2tost2, 2 t2tot2, 3 t2tost2 / st2tot2 / mixed products
-PARTS = {(0, 3): 2, (1, 3): 4, (2, 3): 4, (3, 3): 3, (1, 2): 2, (2, 2): 2}
+PARTS = {(0, 3): 2, (1, 3): 5, (2, 3): 4, (3, 3): 3, (1, 2): 2, (2, 2): 2}
 MODS = [ttcheck.module_name("C02", g, N, p) for g in range(4) for N in (1, 2, 3) for p in range(PARTS.get((g, N), 1))]
 
 
 def main(c):
     ttcheck.run(c, "C02", groups=[0, 1, 2, 3], parts=PARTS, spec=specnum,
-                spec_files=["TensorIndex.v", "TensorTactics.v", "C02Spec.v"],
+                spec_files=["TensorIndex.v", "NsatzTac.v", "TensorTactics.v", "C02Spec.v"],
                 prop_files_quick=["Properties_C02.v"], prop_files_thorough=["Properties_C02_full.v"],
                 conditional={"A_convert": ("Properties_C02_convert.v", "Properties_C02_convert_refuted.v")})
     c.coverage["rule"] = ("every operation of the registry (props/C02/trace.cxx) x N=1,2,3 (quick: all but the most expensive 3D instances); "
